@@ -17,8 +17,37 @@ type slot struct {
 	mu    sync.Mutex
 	desc  any
 	since time.Time
+	beat0 int64
 	busy  bool
 }
+
+// beatSink keeps the heartbeat's allocation on the heap; beats counts the heartbeats of the process.
+var (
+	beatSink  []byte
+	beats     int64
+	beatsOnce sync.Once
+)
+
+func startHeartbeat() {
+	beatsOnce.Do(func() {
+		go func() {
+			for {
+				time.Sleep(100 * time.Millisecond)
+				beatSink = make([]byte, 64<<10)
+				atomic.AddInt64(&beats, 1)
+			}
+		}()
+	})
+}
+
+// A case is only declared a hang while the process itself is demonstrably alive: a heartbeat goroutine
+// sleeps 100 ms, allocates 64 KiB and counts; a case is hung when `limit` worth of heartbeats went by
+// while it was running. A goroutine spinning or blocked inside the library does not stop the heartbeat
+// (the scheduler preempts it, the collector runs); a stall of the whole process (the runtime unable to
+// start a collection, the machine not scheduling the process) stops the heartbeat together with the
+// workers, and is not a hang of the case that happened to be running. First seen as a false alarm on a
+// heavily oversubscribed machine: every allocating goroutine, the watchdog's own included, waited
+// several minutes in the runtime's semaphore for the start of a collection, then the run went on.
 
 // ParForWatched is ParFor with hang detection. describe(i) must return a JSON-serialisable
 // description of case i (only called when a hang is reported).
@@ -27,6 +56,8 @@ func ParForWatched(c *Ctx, n int64, limit time.Duration, describe func(i int64) 
 	slots := make([]slot, w)
 	cur := make([]int64, w)
 	stopWatch := make(chan struct{})
+	startHeartbeat()
+	needBeats := int64(limit / (100 * time.Millisecond))
 	go func() {
 		t := time.NewTicker(time.Second)
 		defer t.Stop()
@@ -38,7 +69,7 @@ func ParForWatched(c *Ctx, n int64, limit time.Duration, describe func(i int64) 
 				for k := range slots {
 					s := &slots[k]
 					s.mu.Lock()
-					hung := s.busy && time.Since(s.since) > limit
+					hung := s.busy && time.Since(s.since) > limit && atomic.LoadInt64(&beats)-s.beat0 >= needBeats
 					i := atomic.LoadInt64(&cur[k])
 					s.mu.Unlock()
 					if hung {
@@ -71,7 +102,7 @@ func ParForWatched(c *Ctx, n int64, limit time.Duration, describe func(i int64) 
 				for i := lo; i < hi; i++ {
 					atomic.StoreInt64(&cur[k], i)
 					s.mu.Lock()
-					s.busy, s.since = true, time.Now()
+					s.busy, s.since, s.beat0 = true, time.Now(), atomic.LoadInt64(&beats)
 					s.mu.Unlock()
 					safeJob(f, i)
 					s.mu.Lock()
